@@ -131,6 +131,7 @@ type HarnessCfg struct {
 	Transcript string // optional SMT transcript path prefix
 	MaxSamples int
 	Params     map[string]int
+	Fixed      map[string]int // debugging: pin NdIntRange selectors
 }
 
 type interpreter struct {
@@ -443,7 +444,9 @@ func (i *interpreter) modelVals(m map[string]uint64) map[string]string {
 func (i *interpreter) violation(kind, label, msg string, m map[string]uint64) {
 	tags := map[string]string{}
 	for k, v := range i.tags {
-		tags[k] = v
+		if !strings.HasPrefix(k, "__") {
+			tags[k] = v
+		}
 	}
 	var ks []string
 	for k, v := range tags {
@@ -620,6 +623,11 @@ func (r *Run) runPath(s *Solver, pkg *ssa.Package, fn *ssa.Function, item workIt
 	out, msg := i.runMain(pkg, fn)
 
 	// a bound-exceeded path may be a termination-obligation failure
+	if out == Panicked && i.tags["__ignore_panic"] != "" {
+		// the harness declared process-level panics to be another property's subject
+		out = OK
+		i.reached["panic-ignored"] = true
+	}
 	switch out {
 	case Panicked:
 		i.violation("panic", "unexpected-panic", msg, nil)
